@@ -47,6 +47,12 @@ class Vals:
         self.skip = False
         self.positions = []
         self.arrays = {}
+        self.owned_lists = []  # list objects handed to the library as index keys; edited by scramble()
+
+    def scramble(self):
+        """The caller goes on using (reversing) the index lists it passed while writing the template."""
+        for lst in self.owned_lists:
+            lst.reverse()
 
     def __call__(self, pos, base, integer=False):
         self.positions.append((pos, base, integer))
@@ -83,6 +89,18 @@ class Vals:
         target = [T * b for b in base_list]
         if kind is None or self.mode == "plain":
             return target
+        if kind == "item":
+            # the whole array read through a LIST of indices that the caller owns (and edits after the template is written)
+            n = len(base_list)
+            order = list(range(1, n)) + [0]
+            name = f"v{pos}"
+            self.arrays[name] = (base_list, lambda t: t, list(order))  # values are un-permuted in var_values
+            if self.mode == "template":
+                if name not in self.vars:
+                    self.vars[name] = self.seq.declare_variable(name, size=n, dtype=float)
+                self.owned_lists.append(order)
+                return self.vars[name][order]
+            return np.array(target, dtype=float)
         f = {"var": lambda v: v, "2*v": lambda v: 2 * v, "-v": lambda v: -v, "v/2": lambda v: v / 2, "v+1": lambda v: v + 1}.get(kind)
         inv = {"var": lambda t: t, "2*v": lambda t: t / 2, "-v": lambda t: -t, "v/2": lambda t: t * 2, "v+1": lambda t: t - 1}.get(kind)
         if f is None:
@@ -105,8 +123,15 @@ class Vals:
                 continue
             T = assign[pos]
             if name in self.arrays:
-                base_list, inv = self.arrays[name]
-                out[name] = [inv(T * b) for b in base_list]
+                base_list, inv = self.arrays[name][:2]
+                vals = [inv(T * b) for b in base_list]
+                if len(self.arrays[name]) > 2:  # read through var[order]: w[order[i]] = target[i]
+                    order = self.arrays[name][2]
+                    w = [0.0] * len(vals)
+                    for i, o in enumerate(order):
+                        w[o] = vals[i]
+                    vals = w
+                out[name] = vals
                 continue
             if kind == "item":
                 out[name] = [0, T, 0]
@@ -339,6 +364,7 @@ def run_prog(name, chosen, mappable=False):
             return [(f"C08:template-construction-raises:{name}:{type(e).__name__}", f"{chosen}: {e}"[:250])]
         if TV.skip:
             return [("@expression-not-applicable", "")]
+        TV.scramble()
         if chosen and not tmpl.is_parametrized():
             return [(f"C08:template-not-parametrized:{name}", f"{chosen}")]
         t0 = snapshot.snap(tmpl, with_calls=True).key(with_calls=True)
